@@ -1,0 +1,76 @@
+//go:build verif
+
+package connlimiter
+
+// Contracts for govc (see /verif/DESIGN.md).  This file contains only
+// comments: it cannot change behaviour, with or without the verif tag.
+
+//@ import net net
+//@ import dnsserver github.com/AdguardTeam/AdGuardDNS/internal/dnsserver
+
+// K is the representation invariant of the shared counter: the number of
+// counted connections never exceeds stop, accepting implies strictly below
+// stop, and the thresholds are consistent.
+//
+//@ pred K(c *counter) = c.current <= c.stop && (c.isAccepting ==> c.current < c.stop) &&
+//@                      c.resume <= c.stop && c.stop >= 1
+
+// Ghost accounting of duties to call decrement: tok is the number of
+// outstanding duties over all threads and open connections (protected by the
+// condition variable's lock), mytok is the share of the calling context.
+//
+//@ ghost tok int
+//@ ghost mytok int
+
+//@ func (*counter).increment
+//@   property C18
+//@   held *
+//@   requires K(c)
+//@   modifies c.current, c.isAccepting, tok, mytok
+//@   ghostset tok = shouldAccept ? tok + 1 : tok
+//@   ghostset mytok = shouldAccept ? mytok + 1 : mytok
+//@   ensures  K(c)
+//@   ensures  !old(c.isAccepting) ==> !shouldAccept && c.current == old(c.current) && !c.isAccepting
+//@   ensures  old(c.isAccepting) ==> shouldAccept && c.current == old(c.current) + 1 &&
+//@                                   c.isAccepting == (c.current < c.stop)
+//@   ensures  c.stop == old(c.stop) && c.resume == old(c.resume)
+//@   ensures  shouldAccept ==> tok == old(tok) + 1 && mytok == old(mytok) + 1
+//@   ensures  !shouldAccept ==> tok == old(tok) && mytok == old(mytok)
+//
+//@ func (*counter).decrement
+//@   property C18
+//@   held *
+//@   requires K(c) && c.current > 0
+//@   modifies c.current, c.isAccepting, tok, mytok
+//@   ghostset tok = tok - 1
+//@   ghostset mytok = mytok - 1
+//@   ensures  K(c) && c.current == old(c.current) - 1
+//@   ensures  c.isAccepting == (old(c.isAccepting) || c.current <= c.resume)
+//@   ensures  c.stop == old(c.stop) && c.resume == old(c.resume)
+//@   ensures  tok == old(tok) - 1 && mytok == old(mytok) - 1
+
+// The lock of the shared condition variable protects the shared counter, the
+// listener's closed flag and the ghost total.  Its invariant gives the
+// property's bound: tok == current <= stop at every unlock.
+//
+//@ lock limitListener self.counterCond.L
+//@   protects self.isClosed, self.counter.*, tok
+//@   invariant K(self.counter) && self.counter.current == tok && tok >= mytok && mytok >= 0
+
+//@ pred LL(l *limitListener) = l.counter != nil && l.counterCond != nil && l.counterCond.L != nil &&
+//@                            l.Listener != nil && l.activeGauge != nil && l.waitingHist != nil
+
+//@ func (*limitListener).increment
+//@   property C18
+//@   requires LL(l) && mytok >= 0
+//@   modifies l.isClosed, l.counter.*, tok, mytok
+//@   ensures  no-leak-when-closed: isClosed ==> mytok == old(mytok)
+//@   ensures  token-when-open: !isClosed ==> mytok == old(mytok) + 1
+//@   loop 1 invariant mytok == old(mytok) && K(l.counter) && l.counter.current == tok && tok >= mytok
+//@   loop 1 invariant l.counter == old(l.counter) && l.counterCond == old(l.counterCond) && LL(l)
+
+//@ func (*limitListener).decrement
+//@   property C18
+//@   requires LL(l) && mytok > 0
+//@   modifies l.isClosed, l.counter.*, tok, mytok
+//@   ensures  mytok == old(mytok) - 1
